@@ -101,14 +101,17 @@ def run_package(files, calls, scratch, keep=False):
         raise C.Infra("generated package does not build/run natively: " + nerr)
     rc, gerr, text = translate(root)
     res = {"native": nat, "goose_rc": rc, "goose_stderr": gerr, "text": text, "calls": [], "mismatches": [], "rejected": [], "parse_error": None,
-           "order_violations": [], "duplicates": []}
+           "order_violations": [], "duplicates": [], "arity_violations": []}
     if text is None:
         res["parse_error"] = "no output file"
         return res
-    replies = gl_session(text, ["names"] + ["eval %s %s" % (fn, " ".join(args)) for _, fn, args in calls])
+    replies = gl_session(text, ["names", "arity"] + ["eval %s %s" % (fn, " ".join(args)) for _, fn, args in calls])
     if replies[0].startswith("parse-error"):
         res["parse_error"] = unhex(replies[0])
         return res
+    # a call of a function of this file with another number of arguments than it takes: the text does not nest as the source does
+    ar = replies.pop(2)
+    res["arity_violations"] = [] if ar in ("arity -", "bad-op") else [dict(zip(("inside", "callee", "arguments", "takes"), x.split(":"))) for x in ar[6:].split(",")]
     order = replies[1][6:].split(",") if replies[1] != "names -" else []
     names = set(order)
     fns = sorted({fn for _, fn, _ in calls} | go_toplevel_names(files["p/p.go"]))
